@@ -440,6 +440,15 @@ def c05_r3(ctx: Ctx, rule):
             ref_arm = (s, text, node)
         elif tc & coercers and isinstance(node, ast.If):
             time_arm = (s, text, node, tc)
+    if not ref_arm:
+        for subj, s, text, tc, fc, node in membership_branches(ctx, norm_q):
+            if s == set(qn) and isinstance(node, ast.If) and not any(isinstance(x, ast.Raise) for b in node.body for x in ast.walk(b)):
+                res.ob("reference attributes (%s) are resolved through valid_qualified_name: False" % text)
+                res.fail(rule.id, "partition::references-not-resolved", ctx.loc(norm_q, node), "the arm for reference attributes (%s) no longer resolves the value through valid_qualified_name" % text,
+                         "a reference given as 'prefix:local' string or record object is stored as given; exporters print str(record) or an undeclared prefix")
+                for a in all_formal(ctx)[:3]:
+                    res.ob("%s: not examined further (reference arm broken)" % a.s, nontrivial=False)
+                return res
     if not ref_arm or not time_arm:
         raise AnalysisError("cannot extract the reference/time arms of %s" % short(norm_q))
     formal = all_formal(ctx)
